@@ -121,7 +121,7 @@ fn invariants(srv: &Srv, _m: &Model) -> Vec<String> {
     v
 }
 
-fn make_world(spec: &str) -> Option<Box<dyn World>> {
+pub fn make_world(spec: &str) -> Option<Box<dyn World>> {
     if spec != "c15-stream" {
         return None;
     }
